@@ -20,7 +20,7 @@ static struct timespec deadline;          /* oracle deadline (set by each scenar
 static int have_deadline;
 static myth_mutex_t M; static int free_seen_before_last, free_at_last;
 static struct myth_thread TGT; static int fin_seen_before_last, fin_at_last;
-static int scenario;
+static int scenario; static int env_locked;
 
 static int ts_valid(const struct timespec *t){ return t->tv_nsec >= 0 && t->tv_nsec <= 999999999; }
 static int ts_gt(const struct timespec *a, const struct timespec *b){
@@ -50,7 +50,7 @@ int clock_gettime(clockid_t id, struct timespec *ts){
 /* stands for myth_yield_ex_body: other threads run */
 int stub_yield_ex(int opt){
   (void)opt; n_yield++; yields_since_clock++;
-  if (scenario == 3) { if (VERIF_CHOICE() & 1) M.state = (M.state & 1) ? 0 : 1; }   /* holder unlocks / somebody locks */
+  if (scenario == 3) { if (VERIF_CHOICE() & 1) { M.state = (M.state & 1) ? 0 : 1; env_locked = M.state & 1; } }   /* holder unlocks / somebody locks */
   if (scenario == 4) { if (VERIF_CHOICE() & 1) TGT.status = MYTH_STATUS_FREE_READY2; }
   return 0;
 }
@@ -101,7 +101,7 @@ int main(void){
   } else if (scenario == 3) {    /* timed lock */
     myth_mutex_init_body(&M, 0);
     M.state = VERIF_CHOICE() & 1;                         /* held by somebody else, or free */
-    int initially_free = !(M.state & 1);
+    int initially_free = !(M.state & 1); env_locked = M.state & 1;
     struct timespec abs; abs.tv_sec = VERIF_CHOICE(); abs.tv_nsec = VERIF_CHOICE();
     ASSUME(ts_valid(&abs) && abs.tv_sec >= 0 && abs.tv_sec < (1L << 40));
     deadline = abs; have_deadline = 1; free_at_last = 0;
@@ -111,6 +111,7 @@ int main(void){
     else {
       CHECK(n_clock >= 1 && ts_gt(&rd[n_clock - 1], &abs), "C20 timedlock times out no earlier than its absolute deadline");
       CHECK(!initially_free && !free_seen_before_last, "C20 timedlock succeeds whenever the mutex is free at one of its attempts before the deadline");
+      CHECK((M.state & 1) == env_locked && (M.state >> 1) == 0, "C20/C04 a timedlock that reports a timeout has not acquired the mutex (its state is as the other threads left it)");
     }
     WITNESS_IF(rc == ETIMEDOUT && n_yield >= 2);
   } else if (scenario == 4) {    /* timed join */
